@@ -3,3 +3,5 @@ NEXT Next
 INVARIANT Once
 INVARIANT PreBeforePost
 INVARIANT EmitInv
+INVARIANT FamOnce
+INVARIANT EmitFam
